@@ -39,26 +39,49 @@ except Exception as e:  # the shipped module does not even load
     CUR = {"step": 0}
     violate("printer.load", "import", "importing gch.gdb.prettyprinters.small_vector failed: %r" % (e,))
 
-# natvis expressions
+# natvis items, by ROLE: what Visual Studio would show for each of them must equal the corresponding observer
+#   ("size", expr)  ("capacity", expr)  ("data", expr)  ("allocator", expr, condition)  ("inlined-cond", expr)  ("allocated-cond", expr)
+#   ("it-value", expr)  ("it-ptr", expr)
 NATVIS = {}
 try:
     ns = {"n": "http://schemas.microsoft.com/vstudio/debugger/natvis/2010"}
     root = ET.parse(os.path.join(SUPPORT, "visualstudio", "small_vector.natvis")).getroot()
     for t in root.findall("n:Type", ns):
-        exprs = []
+        items = []
+        is_it = "iterator" in t.get("Name")
         for el in t.iter():
-            if el.get("Condition"):
-                exprs.append(("Condition", el.get("Condition")))
             tag = el.tag.split("}")[-1]
-            if tag in ("Item", "Size", "ValuePointer") and el.text:
-                exprs.append((tag + ":" + (el.get("Name") or ""), el.text.strip()))
-            if tag == "DisplayString" and el.text:
-                for m in re.findall(r"\{([^{}]+)\}", el.text.replace("{{", "").replace("}}", "")):
-                    exprs.append(("DisplayString", m))
-        NATVIS[t.get("Name")] = exprs
+            text = (el.text or "").strip()
+            if tag == "DisplayString":
+                inner = re.findall(r"\{([^{}]+)\}", text.replace("{{", "").replace("}}", ""))
+                if is_it:
+                    for m in inner:
+                        items.append(("it-value", m))
+                else:
+                    for m in inner:
+                        items.append(("size", m))        # the display string shows size={...}
+                    if el.get("Condition"):
+                        items.append(("inlined-cond" if "inlined" in text else "allocated-cond" if "allocated" in text else "cond", el.get("Condition")))
+            elif tag == "Size":
+                items.append(("size", text))
+            elif tag == "ValuePointer":
+                items.append(("data", text))
+            elif tag == "Item":
+                name = el.get("Name") or ""
+                if "capacity" in name:
+                    items.append(("capacity", text))
+                elif "allocator" in name:
+                    items.append(("allocator", text, el.get("Condition")))
+                elif "ptr" in name:
+                    items.append(("it-ptr", text))
+                else:
+                    items.append(("other", text))
+        NATVIS[t.get("Name")] = items
+    if not any(i[0] == "size" for v in NATVIS.values() for i in v) or not any(i[0] == "data" for v in NATVIS.values() for i in v):
+        raise ValueError("natvis has no <Size>/<ValuePointer> for small_vector")
 except Exception as e:
     CUR = {"step": 0}
-    violate("natvis.parse", "xml", "natvis file cannot be parsed: %r" % (e,))
+    violate("natvis.parse", "xml", "natvis file cannot be parsed / lacks the expected items: %r" % (e,))
 
 IDENT = re.compile(r"(?<![\w.>])([A-Za-z_]\w*)")
 
@@ -151,43 +174,43 @@ def inspect():
     # natvis member paths
     data = int(gdb.parse_and_eval("(unsigned long) g_data"))
     N = KINDS[kind][1]
-    for tname, exprs in NATVIS.items():
+    for tname, items in NATVIS.items():
         is_it = "iterator" in tname
-        for what, ex in exprs:
+        for item in items:
+            role, ex = item[0], item[1]
             try:
                 if is_it:
                     if itidx < 0 or itidx >= len(children):
                         continue
                     v = natvis_eval(ex, "g_it%d" % kind)
                     counters["natvis-evals"] += 1
-                    if ex.strip() == "*m_ptr" and enc(kind, v) != expect[itidx]:
-                        violate("natvis.iterator-value", tkey, "natvis {*m_ptr} shows a different element")
-                    if ex.strip() == "m_ptr" and int(v) != data + itidx * int(children[itidx][1].type.sizeof):
-                        violate("natvis.iterator-ptr", tkey, "natvis m_ptr is not &v[%d]" % itidx)
+                    if role == "it-value" and enc(kind, v) != expect[itidx]:
+                        violate("natvis.iterator-value", tkey, "natvis iterator display {%s} shows a different element" % ex)
+                    if role == "it-ptr" and int(v) != data + itidx * int(children[itidx][1].type.sizeof):
+                        violate("natvis.iterator-ptr", tkey, "natvis [ptr] item %s is not &v[%d]" % (ex, itidx))
                     continue
-                if "m_alloc" in ex:
+                if role == "allocator":
                     try:
                         v = natvis_eval(ex, obj)
                         counters["m_alloc-resolved"] += 1
-                        if kind == 6 and ex.strip() == "m_alloc" and int(v["tag"]) != 1234:
-                            violate("natvis.m_alloc", tkey, "natvis m_alloc does not show the container's allocator")
+                        if kind == 6 and int(v["tag"]) != 1234:
+                            violate("natvis.m_alloc", tkey, "natvis [allocator] item does not show the container's allocator")
                     except gdb.error:
                         if kind == 6:
-                            violate("natvis.m_alloc-unresolved", tkey, "natvis path m_alloc does not resolve for a stateful allocator")
+                            violate("natvis.m_alloc-unresolved", tkey, "natvis [allocator] path %s does not resolve for a stateful allocator" % ex)
                     continue
                 v = natvis_eval(ex, obj)
                 counters["natvis-evals"] += 1
-                e2 = ex.replace(" ", "")
-                if e2 == "m_data.m_size" and int(v) != size:
-                    violate("natvis.size", tkey, "natvis m_data.m_size = %d, size() = %d" % (int(v), size))
-                elif e2 == "m_data.m_capacity" and int(v) != cap:
-                    violate("natvis.capacity", tkey, "natvis m_data.m_capacity = %d, capacity() = %d" % (int(v), cap))
-                elif e2 == "m_data.m_data_ptr" and int(v) != data:
-                    violate("natvis.data_ptr", tkey, "natvis m_data.m_data_ptr != data()")
-                elif e2 == "m_data.m_capacity==inline_capacity_v" and bool(v) != bool(inl):
-                    violate("natvis.inlined-condition", tkey, "natvis 'inlined' condition is %s, inlined() is %s" % (bool(v), bool(inl)))
-                elif e2 == "m_data.m_capacity!=inline_capacity_v" and bool(v) == bool(inl):
-                    violate("natvis.allocated-condition", tkey, "natvis 'allocated' condition is %s, inlined() is %s" % (bool(v), bool(inl)))
+                if role == "size" and int(v) != size:
+                    violate("natvis.size", tkey, "natvis shows size %s = %d, size() = %d" % (ex, int(v), size))
+                elif role == "capacity" and int(v) != cap:
+                    violate("natvis.capacity", tkey, "natvis [capacity] %s = %d, capacity() = %d" % (ex, int(v), cap))
+                elif role == "data" and int(v) != data:
+                    violate("natvis.data_ptr", tkey, "natvis <ValuePointer> %s != data()" % ex)
+                elif role == "inlined-cond" and bool(v) != bool(inl):
+                    violate("natvis.inlined-condition", tkey, "natvis '(inlined)' condition is %s, inlined() is %s" % (bool(v), bool(inl)))
+                elif role == "allocated-cond" and bool(v) == bool(inl):
+                    violate("natvis.allocated-condition", tkey, "natvis '(allocated)' condition is %s, inlined() is %s" % (bool(v), bool(inl)))
             except gdb.error as e:
                 violate("natvis.unresolved", "%s|%s" % (tkey, ex), "natvis expression %r does not resolve: %s" % (ex, e))
     if N is not None:
